@@ -2,6 +2,7 @@ package c09
 
 import (
 	"bytes"
+	"encoding/hex"
 	"fmt"
 	"sync"
 	"sync/atomic"
@@ -13,7 +14,7 @@ import (
 )
 
 const ruleText = "frame sequences (AAC frames; H.264 NAL units of type 1, 5, 6 and in-band 7, 8, 9, legal Annex-B content with frequent zero runs and emulation-prevention bytes) with parameter sets from ipchub's own tests go through H264Packetizer/AacPacketizer->Writer and through Muxer; output judged by an independent ISO 13818-1 demultiplexer + Annex-B splitter + ADTS parser. " +
-	"Sweeps enumerate every payload size 1..592 for every header shape and every size across the PES_packet_length 65535 boundary; timestamp sweep = all pairs of 33-bit boundary values; random part = rapid sequences of up to 20 (thorough 40) frames. " +
+	"Sweeps enumerate every payload size 1..592 for every header shape, every size across the PES_packet_length 65535 boundary, and for key frames every SPS+PPS total length 8..400 (synthetic sets, three splits) x 7 payload sizes; timestamp sweep = all pairs of 33-bit boundary values; random part = rapid sequences of up to 20 (thorough 40) frames. " +
 	"A case is non-trivial when at least one PES ends in a short last packet, i.e. takes an adaptation-field stuffing path (creating an adaptation field of 1, 2 or >=3 bytes, or growing the one that already carries the PCR)."
 
 func paramSet(i int) (sps, pps string) {
@@ -169,6 +170,89 @@ func TestSizeSweep(t *testing.T) {
 					sc.add(st)
 					if size == 100 && !mux {
 						evid.Sample("size-sweep:"+sh.name, c)
+					}
+				}
+			}
+		})
+	}
+	t.Cleanup(sc.flush)
+}
+
+// synthParamSets makes an SPS and a PPS of the given lengths: NAL header 0x67 /
+// 0x68 followed by a body that is legal inside an Annex-B stream. The TS
+// packetizer copies parameter sets without parsing them, so their length is
+// what matters: the ES header of a key frame (AUD + SPS + PPS + start codes) can
+// be longer than what is left of the first packet behind the PES header.
+func synthParamSets(spsLen, ppsLen int, seed uint32) (sps, pps string) {
+	return hex.EncodeToString(frameSpec{Hdr: 0x67, Size: spsLen, Seed: seed}.payload()),
+		hex.EncodeToString(frameSpec{Hdr: 0x68, Size: ppsLen, Seed: seed ^ 0x5bd1e995}.payload())
+}
+
+// esHeaderLen is the number of ES bytes in front of an IDR slice: AUD (6),
+// 4-byte start code + SPS, 4-byte start code + PPS, 3-byte start code.
+func esHeaderLen(c *caseSpec) int {
+	n := 6 + 3
+	if len(c.SPS) > 0 {
+		n += 4 + len(c.SPS)/2
+	}
+	if len(c.PPS) > 0 {
+		n += 4 + len(c.PPS)/2
+	}
+	return n
+}
+
+// firstPacketRoom is what the first packet of a key frame offers behind the TS
+// header, the PCR adaptation field (8) and the PES header (14 or 19).
+func firstPacketRoom(dts bool) int {
+	if dts {
+		return 188 - 4 - 8 - 19
+	}
+	return 188 - 4 - 8 - 14
+}
+
+// TestParamSetLengthSweep: key frames x every total length of SPS+PPS from 8 to
+// 400 bytes (thorough 1500; a few longer ones in quick too), split three ways
+// between the two sets, x payload sizes around the interesting packet fills,
+// PTS-only and PTS+DTS.
+func TestParamSetLengthSweep(t *testing.T) {
+	evid.Rule(ruleText)
+	maxTotal := 400
+	if evid.Thorough() {
+		maxTotal = 1500
+	}
+	shard, shards := evid.Shard()
+	var totals []int
+	for n := 8; n <= maxTotal; n++ {
+		totals = append(totals, n)
+	}
+	if !evid.Thorough() {
+		totals = append(totals, 513, 736, 737, 1000, 1499)
+	}
+	payloads := []int{1, 3, 40, 150, 184, 185, 420}
+	var sc sweepCounter
+	for _, sh := range shapes[:2] { // video-key/PTS, video-key/PTS+DTS
+		sh := sh
+		t.Run(sh.name, func(t *testing.T) {
+			t.Parallel()
+			for _, total := range totals {
+				if total%shards != shard {
+					continue
+				}
+				for split, spsLen := range []int{total - 4, total / 2, 4} {
+					for pi, size := range payloads {
+						sps, pps := synthParamSets(spsLen, total-spsLen, uint32(total*8+split))
+						c := &caseSpec{SPS: sps, PPS: pps, ASC: ascPool[(total+pi)%len(ascPool)], Muxer: (total+pi+split)%4 == 0, LateParamSets: (total+pi)%7 == 0}
+						pts := uint64(400000 + total*3003)
+						c.Frames = append([]frameSpec{sh.frame(size, uint32(total*31+pi), pts)}, tail(pts)...)
+						sc.add(check(t, c, "paramset-length-sweep"))
+						if esHeaderLen(c) > firstPacketRoom(sh.dts) {
+							evid.Class("key-frame:ES-header-exceeds-first-packet")
+						} else {
+							evid.Class("key-frame:ES-header-fits-first-packet")
+						}
+						if total == 300 && split == 1 && pi == 2 {
+							evid.Sample("paramset-length-sweep:"+sh.name, c)
+						}
 					}
 				}
 			}
@@ -376,6 +460,16 @@ func genCase(t *rapid.T, maxFrames int, big bool, inbandHeavy bool) *caseSpec {
 		c.SPS, c.PPS = "", ""
 	case 1:
 		c.SPS, _ = paramSet(0)
+	case 2, 3, 4, 5, 6: // synthetic sets of generated length (rapid favours the ends: 1 and the maxima)
+		spsLen := rapid.IntRange(1, 400).Draw(t, "sps-len")
+		ppsLen := rapid.IntRange(1, 200).Draw(t, "pps-len")
+		if pick(t, "ps-len-kind", "any", "around-first-packet", "any") == "around-first-packet" {
+			// 6+4+sps+4+pps+3 lands within +-6 of the room behind a PTS-only / PTS+DTS header
+			target := rapid.SampledFrom([]int{162, 157}).Draw(t, "room") - 17 + rapid.IntRange(-6, 6).Draw(t, "room-delta")
+			ppsLen = rapid.IntRange(1, 60).Draw(t, "pps-len-2")
+			spsLen = target - ppsLen
+		}
+		c.SPS, c.PPS = synthParamSets(spsLen, ppsLen, rapid.Uint32().Draw(t, "ps-seed"))
 	default:
 		c.SPS, c.PPS = paramSet(rapid.IntRange(0, len(repoParamSets)-1).Draw(t, "ps"))
 	}
@@ -447,7 +541,7 @@ func TestRandomSequences(t *testing.T) {
 	if evid.Thorough() {
 		maxFrames = 40
 	}
-	evid.Checks(4000, 60000)
+	evid.Checks(3000, 60000)
 	// rapid derives every Check's stream from the one -rapid.seed: configurations
 	// that share a generator draw `salt` dummy values first so that they do not
 	// replay each other's cases.
@@ -478,6 +572,9 @@ func TestRandomSequences(t *testing.T) {
 				}
 				if st.stuffNewAF > 0 {
 					evid.Class("case:stuffing-creates-AF")
+				}
+				if esHeaderLen(c) > firstPacketRoom(false) {
+					evid.Class("case:key-frame-ES-header-exceeds-first-packet")
 				}
 				if c.Muxer {
 					evid.Class("path:muxer")
